@@ -70,7 +70,7 @@ def main():
         res["checks"] = {}
         for p in meta.get("checks") or [meta["property"]]:
             t0 = time.time()
-            r = sh(f"PSIM_REPO={wt} PSIM_SUT_BIN={binp} /verif/check {p} --tier {tier}", cwd="/verif")
+            r = sh(f"PSIM_SUT_TAG=cs-{mid} PSIM_REPO={wt} PSIM_SUT_BIN={binp} /verif/check {p} --tier {tier}", cwd="/verif")
             kinds = sorted(set(re.findall(r"^violation kind=(\S+)", r.stdout, re.M)))
             res["checks"][p] = {
                 "exit": r.returncode,
@@ -82,9 +82,7 @@ def main():
         json.dump(meta, open(f"{d}/meta.json", "w"), indent=1)
         print(mid, json.dumps(res)[:600], flush=True)
         sh(f"git -C /repo worktree remove --force {wt}")
-        for x in os.listdir("/verif/target"):
-            if x.startswith("sut-"):
-                shutil.rmtree(os.path.join("/verif/target", x), ignore_errors=True)
+        shutil.rmtree(f"/verif/target/sut-cs-{mid}bin", ignore_errors=True)
 
 
 if __name__ == "__main__":
